@@ -225,6 +225,12 @@ def install(spec=None, concrete=False):
             binds['int'] = IntF
         if 'myokit' in spec and hasattr(mod, 'myokit'):
             binds['myokit'] = spec['myokit']
+        if hasattr(mod, 'pd') and name == 'chi._problems':
+            from .facade_pd import PD
+            binds['pd'] = PD()
+            binds['np'] = NP(random=spec.get('random', _RandomProxy()),
+                             pi_symbolic=spec.get('pi_symbolic', True),
+                             alloc_view=True)
         for mname, d in (spec.get('extra') or {}).items():
             if mname == name:
                 binds.update(d)
